@@ -460,7 +460,7 @@ Proof.
   rewrite (existsb_perm _ _ _ (fe_bases _ _ E)).
   destruct (existsb _ (fl_bases (flatten items'))).
   - apply Permutation_map. now apply fields_of_perm.
-  - simpl. rewrite !(has_kind_eq _ _ E). apply Permutation_refl.
+  - simpl. rewrite !(type_defined_eq _ _ E). apply Permutation_refl.
 Qed.
 
 (* ---- acceptance does not depend on the arrangement ---- *)
